@@ -244,6 +244,19 @@ def ev(node, env):
         if f == 'im':
             return V(None, [(im, Fraction(0))], a.mag, a.den, a.cert)
         raise EvalError('function ' + f)
+    if op == 'app':             # application of a SAMPLED function (user_functions with a sampling set)
+        fn = env['fn:' + node[1]]
+        args = [ev(a, env) for a in node[2]]
+        if any(a.shape is not None or a.items[0][1] != 0 for a in args):
+            raise EvalError('function argument')
+        if hasattr(fn, 'tree'):
+            # a function whose body is one of our own trees: evaluated exactly, like everything else
+            return ev(fn.tree, dict(zip(fn.params, args)))
+        # an opaque function handed out by RandomFunction / SpecificFunctions: the oracle calls the very function
+        # the sampler handed out (it is part of the sample), at the exactly evaluated arguments
+        val = fn(*[float(a.items[0][0]) for a in args])
+        lf = leaf(complex(val) if isinstance(val, complex) else float(val))
+        return V(None, lf.items, (lf.mag + 1) * 1000, 0, False)
     if op == 'sqrtsq':          # sqrt((a)^2) for a real a: |a|, evaluated by the library through pow and sqrt
         a = ev(node[1], env)
         re, im = a.items[0]
@@ -292,6 +305,8 @@ def render(node, rng=None, spaces=False, extra_parens=False):
             return '(' + r(n[1]) + sp() + '^' + sp() + str(n[2]) + ')'
         if op == 'call':
             return n[1] + '(' + sp() + r(n[2]) + sp() + ')'
+        if op == 'app':
+            return n[1] + '(' + (',' + sp()).join(r(x) for x in n[2]) + ')'
         if op == 'sqrtsq':
             return 'sqrt((' + r(n[1]) + ')^2)'
         if op == 'vec':
@@ -311,12 +326,112 @@ def num(x):
     return ('num', t)
 
 
-# ================================================================================================
-# the recording sampling set (author-defined, as the property says) and the run-time wrappers
-# ================================================================================================
 _REC = {}
 
 
+def feval(node, env):
+    """float evaluation of a function body (the arithmetic a Python lambda with that body would perform)"""
+    op = node[0]
+    if op == 'num':
+        return float(node[1])
+    if op == 'var':
+        return env[node[1]]
+    if op == 'add':
+        return feval(node[1], env) + feval(node[2], env)
+    if op == 'sub':
+        return feval(node[1], env) - feval(node[2], env)
+    if op == 'mul':
+        return feval(node[1], env) * feval(node[2], env)
+    if op == 'neg':
+        return -feval(node[1], env)
+    raise EvalError('function body ' + op)
+
+
+def tree_function(params, tree):
+    """a plain Python function computing `tree` in floats; it carries its own syntax tree for the oracle"""
+    params = list(params)
+
+    def fn(*args):
+        if len(args) != len(params):
+            raise TypeError('arity')
+        return feval(tree, dict(zip(params, args)))
+    fn.nin = len(params)
+    fn.params = params
+    fn.tree = tree
+    return fn
+
+
+NAMED_FUNCTIONS = {}
+
+
+def named_function(name):
+    """opaque unary functions offered to SpecificFunctions / RandomFunction-style sampling"""
+    import numpy as np
+    if not NAMED_FUNCTIONS:
+        NAMED_FUNCTIONS.update({'sin': np.sin, 'cos': np.cos, 'tanh': np.tanh,
+                                'cube': tree_function(['t'], ('mul', X('t'), ('mul', X('t'), X('t')))),
+                                'twice_plus_one': tree_function(['t'], ('add', ('mul', N(2), X('t')), N(1))),
+                                'square': tree_function(['t'], ('mul', X('t'), X('t')))})
+    return NAMED_FUNCTIONS[name]
+
+
+def record_function_sampler(s):
+    """wrap one FunctionSamplingSet INSTANCE so that every function it hands out is recorded (run time, no hooks)"""
+    orig = s.gen_sample
+    s.handed_out = []
+
+    def gen_sample():
+        f = orig()
+        s.handed_out.append(f)
+        return f
+    s.gen_sample = gen_sample
+    return s
+
+
+def function_samplers(case):
+    """case['funcs'] -> the user_functions entries of the grader configuration"""
+    from mitxgraders import RandomFunction, SpecificFunctions
+    out = {}
+    for name, spec in case.get('funcs', {}).items():
+        if spec['type'] == 'tree':
+            fns = [tree_function(spec['params'], t) for t in spec['trees']]
+            out[name] = rec_functions_class()(functions=fns)
+        elif spec['type'] == 'random':
+            out[name] = RandomFunction(**spec['config'])
+        elif spec['type'] == 'specific':
+            out[name] = SpecificFunctions([named_function(k) for k in spec['names']])
+        elif spec['type'] == 'list':           # a bare list, coerced to SpecificFunctions by the schema
+            out[name] = [named_function(k) for k in spec['names']]
+        else:
+            raise ValueError(spec['type'])
+    return out
+
+
+def rec_functions_class():
+    if 'fcls' not in _REC:
+        from voluptuous import Schema, Required
+        from mitxgraders.sampling import FunctionSamplingSet
+
+        class OrderedFunctions(FunctionSamplingSet):
+            """author-defined function sampling set: hands out the configured functions in order"""
+            schema_config = Schema({Required('functions'): list})
+
+            def __init__(self, config=None, **kwargs):
+                super(OrderedFunctions, self).__init__(config, **kwargs)
+                self.k = 0
+
+            def gen_sample(self):
+                fns = self.config['functions']
+                f = fns[self.k % len(fns)]
+                self.k += 1
+                return f
+        _REC['fcls'] = OrderedFunctions
+    return _REC['fcls']
+
+
+# ================================================================================================
+# the recording sampling set (author-defined, as the property says) and the run-time wrappers
+# ================================================================================================
 def rec_class():
     if 'cls' not in _REC:
         from voluptuous import Schema, Required
@@ -562,6 +677,59 @@ MAT_ANSWERS = [
 ]
 
 
+def F(name, *args):
+    return ('app', name, list(args))
+
+
+# answers that depend on SAMPLED FUNCTIONS only (no variables), on functions and variables, and on nothing
+FUNC_ANSWERS = [
+    lambda: ('sub', F('f', N(1)), F('f', N(0))),
+    lambda: ('mul', N(2), F('g', N(3))),
+    lambda: ('add', ('mul', F('f', N(2)), F('g', N(1))), N(1)),
+    lambda: ('add', F('f', F('g', N(1))), N(0.5)),
+    lambda: ('sub', F('h', N(1), N(2)), F('f', N(3))),
+]
+FUNCVAR_ANSWERS = [
+    lambda: ('add', F('f', X('x')), X('y')),
+    lambda: ('sub', ('mul', X('x'), F('f', N(2))), F('g', X('y'))),
+    lambda: ('add', F('f', ('mul', X('x'), X('y'))), N(1)),
+    lambda: ('mul', F('h', X('x'), N(2)), ('add', X('y'), N(1))),
+]
+CONST_ANSWERS = [
+    lambda: ('add', ('mul', N(3), N(4)), N(1)),
+    lambda: N(2.5),
+    lambda: ('mul', ('add', N(1), N(2)), ('sub', N(3), N(5))),
+]
+
+
+def gen_functions(rng, n, exact, names):
+    """how each sampled function is produced: our own trees (exactly evaluable), RandomFunction, SpecificFunctions,
+    or a bare list (which the schema coerces to SpecificFunctions)"""
+    def coef():
+        return float(rng.choice([-3, -2, -1, 1, 2, 3, 4, 0.5])) if exact else round(rng.uniform(-3, 3), 3) or 1.0
+
+    def body(params):
+        if len(params) == 2:
+            return ('add', ('mul', N(coef()), X(params[0])), ('mul', N(coef()), X(params[1])))
+        t = X(params[0])
+        return rng.choice([
+            lambda: ('add', ('mul', N(coef()), t), N(coef())),
+            lambda: ('add', ('mul', N(coef()), ('mul', t, t)), N(coef())),
+            lambda: ('sub', ('mul', t, ('add', t, N(coef()))), N(coef()))])()
+    out = {}
+    for name in names:
+        params = ['s', 't'] if name == 'h' else ['t']
+        mode = 'tree' if (exact or name == 'h') else rng.choice(['tree', 'random', 'specific', 'list'])
+        if mode == 'tree':
+            out[name] = {'type': 'tree', 'params': params, 'trees': [body(params) for _ in range(n)]}
+        elif mode == 'random':
+            out[name] = {'type': 'random', 'config': {'center': rng.choice([0, 2]), 'amplitude': rng.choice([1, 10]),
+                                                      'num_terms': rng.choice([1, 3])}}
+        else:
+            out[name] = {'type': mode, 'names': rng.sample(['sin', 'cos', 'tanh', 'cube', 'twice_plus_one', 'square'], 3)}
+    return out
+
+
 def is_scalar_kind(kind):
     return kind in ('real', 'complex', 'numerical')
 
@@ -573,7 +741,7 @@ def rewrite(node, rng, scalar_names, depth=0):
 
     def scalar(n):
         o = n[0]
-        if o in ('num', 'i', 'call', 'pow', 'sqrtsq'):
+        if o in ('num', 'i', 'call', 'pow', 'sqrtsq', 'app'):
             return True
         if o == 'var':
             return n[1] in scalar_names
@@ -603,6 +771,8 @@ def rewrite(node, rng, scalar_names, depth=0):
         out = ('call', node[1], rewrite(node[2], rng, scalar_names, depth + 1))
     elif op == 'pow':
         out = ('pow', rewrite(node[1], rng, scalar_names, depth + 1), node[2])
+    elif op == 'app':
+        out = ('app', node[1], [rewrite(x, rng, scalar_names, depth + 1) for x in node[2]])
     else:
         out = node
     r = rng.random()
@@ -735,9 +905,11 @@ def tol_config(tol):
     return tol[1]
 
 
-def build_grader(kind, ans_text, answer_cfg, tol, n, failable, samplers):
+def build_grader(kind, ans_text, answer_cfg, tol, n, failable, samplers, user_functions=None):
     from mitxgraders import FormulaGrader, MatrixGrader, NumericalGrader
     cfg = dict(answers=dict(answer_cfg, expect=ans_text), tolerance=tol_config(tol))
+    if user_functions:
+        cfg['user_functions'] = user_functions
     if kind == 'numerical':
         return NumericalGrader(**cfg)
     cfg.update(samples=n, failable_evals=failable, variables=sorted(samplers), sample_from=samplers)
@@ -761,10 +933,11 @@ def no_credit(result):
 
 def make_case(rng, exact, forced=None):
     """one random grader case (a dict that fully determines the call, so it can be replayed)"""
-    kind = rng.choice(['real', 'real', 'complex', 'vector', 'matrix', 'numerical'])
+    kind = rng.choice(['real', 'real', 'complex', 'vector', 'matrix', 'numerical', 'func', 'funcvar', 'const'])
     n = 1 if kind == 'numerical' else rng.choice([1, 2, 3, 4, 5, 5, 7, 10])
     failable = 0 if kind == 'numerical' else rng.choice([0, 0, 1, 1, 2, 3, max(n - 1, 0), n, n + 1])
     tol = pick_tol(rng, exact)
+    funcs = {}
     if kind == 'numerical':
         pool = [lambda: N(10), lambda: N(3.5), lambda: ('mul', N(4), N(2.5)), lambda: ('neg', N(8)),
                 lambda: ('add', N(3), ('mul', N(4), ('i',)))]
@@ -772,6 +945,10 @@ def make_case(rng, exact, forced=None):
             pool += [lambda: N(0.1), lambda: ('div', N(22), N(7)), lambda: ('pow', N(1.1), 3)]
         ans = rng.choice(pool)()
         samples = {}
+    elif kind in ('func', 'funcvar', 'const'):
+        ans = rng.choice({'func': FUNC_ANSWERS, 'funcvar': FUNCVAR_ANSWERS, 'const': CONST_ANSWERS}[kind])()
+        samples = gen_samples(rng, 'real', n, exact) if kind == 'funcvar' else {}
+        funcs = gen_functions(rng, n, exact, sorted({x[1] for x in walk(ans) if x[0] == 'app'}))
     else:
         pools = {'real': REAL_ANSWERS if exact else REAL_ANSWERS_ROUNDED,
                  'complex': CPLX_ANSWERS if exact else CPLX_ANSWERS_ROUNDED,
@@ -779,12 +956,13 @@ def make_case(rng, exact, forced=None):
         ans = rng.choice(pools[kind])()
         samples = gen_samples(rng, kind, n, exact)
     skind = 'complex' if (kind == 'numerical' and any(isinstance(x, tuple) and x == ('i',) for x in walk(ans))) else kind
-    fam, stu, tol = student_variant(rng, skind if kind == 'numerical' else kind, ans, tol, exact, samples)
-    if kind == 'numerical' and fam == 'branch':
+    vkind = {'numerical': skind, 'func': 'real', 'funcvar': 'real', 'const': 'real'}.get(kind, kind)
+    fam, stu, tol = student_variant(rng, vkind, ans, tol, exact, samples)
+    if kind in ('numerical', 'func', 'const') and fam == 'branch':
         fam, stu = 'same', ans
     style = {'spaces': rng.random() < 0.4, 'parens': rng.random() < 0.4, 'seed': rng.randrange(1 << 30)}
     return {'kind': kind, 'n': n, 'failable': failable, 'tol': list(tol), 'answer': ans, 'student': stu, 'family': fam,
-            'samples': samples, 'exact': exact, 'answer_cfg': rng.choice(ANSWER_CFGS), 'style': style}
+            'samples': samples, 'funcs': funcs, 'exact': exact, 'answer_cfg': rng.choice(ANSWER_CFGS), 'style': style}
 
 
 def walk(node):
@@ -809,15 +987,24 @@ def run_case(case, cap):
     srng = random.Random(case['style']['seed'])
     ans_text = render(case['answer'])
     stu_text = render(case['student'], srng, case['style']['spaces'], case['style']['parens'])
-    st, g = core.guarded(build_grader, case['kind'], ans_text, case['answer_cfg'], tol, case['n'], case['failable'], samplers)
+    st, g = core.guarded(build_grader, case['kind'], ans_text, case['answer_cfg'], tol, case['n'], case['failable'], samplers,
+                         function_samplers(case))
     if st != 'ret':
         return {'status': 'construct-failed', 'error': repr(g), 'ans_text': ans_text, 'stu_text': stu_text}
     answer = g.config['answers'][0]
+    fsamplers = {}
+    if case.get('funcs'):
+        import numpy as np
+        fsamplers = {k: record_function_sampler(v) for k, v in g.random_funcs.items()}
+        # RandomFunction / SpecificFunctions draw from the global generators: pin them to the case
+        np.random.seed(case['style']['seed'] % (1 << 32))
+        random.seed(case['style']['seed'])
     cap.reset()
     st, out = core.guarded(g, None, stu_text)
     return {'status': st, 'result': out if st == 'ret' else None, 'error': None if st == 'ret' else repr(out),
             'answer': {k: answer[k] for k in ('ok', 'grade_decimal', 'msg')}, 'ans_text': ans_text, 'stu_text': stu_text,
             'handed_out': {k: list(s.handed_out) for k, s in samplers.items()},
+            'handed_fn': {k: list(s.handed_out) for k, s in fsamplers.items()},
             'evals': cap.evals, 'results': cap.results, 'config_tolerance': g.config['tolerance']}
 
 
@@ -830,9 +1017,16 @@ def oracle_case(case, obs):
     for k in names:
         if len(handed[k]) != n:
             return ('sampler for %s was consulted %d times for %d samples' % (k, len(handed[k]), n)), None, []
+    fnames = sorted(case.get('funcs', {}))
+    handed_fn = obs.get('handed_fn', {})
+    for k in fnames:
+        if len(handed_fn.get(k, [])) != n:
+            return ('function sampler for %s was consulted %d times for %d samples' % (k, len(handed_fn.get(k, [])), n)), None, []
     classes = []
     for j in range(n):
         env = {k: leaf(handed[k][j]) for k in names}
+        for k in fnames:
+            env['fn:' + k] = handed_fn[k][j]
         e = ev(case['answer'], env)
         s = ev(case['student'], env)
         if e.shape != s.shape:
@@ -877,9 +1071,9 @@ def grader_term(case, obs):
 def corpus():
     out = []
 
-    def add(kind, ans, stu, tol, samples, n, failable, fam, cfg=None):
+    def add(kind, ans, stu, tol, samples, n, failable, fam, cfg=None, funcs=None):
         out.append({'kind': kind, 'n': n, 'failable': failable, 'tol': list(tol), 'answer': ans, 'student': stu,
-                    'family': fam, 'samples': samples, 'exact': True, 'answer_cfg': cfg or {'grade_decimal': 1, 'msg': ''},
+                    'family': fam, 'samples': samples, 'funcs': funcs or {}, 'exact': True, 'answer_cfg': cfg or {'grade_decimal': 1, 'msg': ''},
                     'style': {'spaces': False, 'parens': False, 'seed': 1}})
     xy = ('add', ('mul', X('x'), X('y')), N(3))
     s5 = {'x': [1.0, -2.0, 3.0, -4.0, 5.0], 'y': [2.0, 3.0, -1.0, 2.0, 4.0]}
@@ -924,6 +1118,27 @@ def corpus():
     # percentage of the Frobenius norm of the expected array: A = [1,2,2] (norm 3), [0,3,4] (norm 5); offset norm 3 and 5
     for p in ('100%', '99%', '101%', '60%'):
         add('vector', X('A'), ('add', X('A'), ('vec', [N(0), N(0), N(3)])), ('pct', p), sv, 2, 1, 'delta')
+    # answers that depend on sampled functions only: f differs from sample to sample, so author and student must be
+    # evaluated with the SAME sampled function at every sample
+    fa = ('sub', F('f', N(1)), F('f', N(0)))
+    ftrees = {'f': {'type': 'tree', 'params': ['t'],
+                    'trees': [('add', ('mul', N(a), X('t')), N(b)) for a, b in [(1, 2), (3, -1), (-2, 5)]]}}
+    for stu, fam in [(fa, 'same'), (('add', ('neg', F('f', N(0))), F('f', N(1))), 'rewrite'), (('add', fa, N(2)), 'delta'),
+                     (('add', fa, N(2.5)), 'delta'), (('mul', N(1), fa), 'rewrite')]:
+        for n in (1, 2, 3):
+            add('func', fa, stu, ('abs', 2), {}, n, 0, fam, funcs=ftrees)
+    ga = ('mul', N(2), F('g', N(3)))
+    for spec in ({'type': 'specific', 'names': ['sin', 'cos', 'square']}, {'type': 'list', 'names': ['cube', 'tanh', 'twice_plus_one']},
+                 {'type': 'random', 'config': {}}):
+        for stu, fam in [(ga, 'same'), (('mul', F('g', N(3)), N(2)), 'rewrite'), (('add', F('g', N(3)), F('g', N(3))), 'rewrite'),
+                         (('add', ga, N(1000)), 'delta')]:
+            add('func', ga, stu, ('pct', '1%'), {}, 5, 0, fam, {'grade_decimal': 0.5, 'msg': 'half'}, funcs={'g': spec})
+    mixed = ('add', F('f', X('x')), X('y'))
+    for stu, fam in [(mixed, 'same'), (('add', X('y'), F('f', X('x'))), 'rewrite'), (('add', mixed, N(2)), 'delta'), (('add', mixed, N(3)), 'delta')]:
+        add('funcvar', mixed, stu, ('abs', 2), {'x': s5['x'][:3], 'y': s5['y'][:3]}, 3, 0, fam, funcs=ftrees)
+    const = ('add', ('mul', N(3), N(4)), N(1))
+    for stu, fam in [(const, 'same'), (N(13), 'rewrite'), (N(15), 'delta'), (N(15.5), 'delta')]:
+        add('const', const, stu, ('abs', 2), {}, 4, 1, fam)
     return out
 
 
@@ -936,6 +1151,9 @@ def run_graders(ctx, res, rng):
     res.distribution['corpus_cases'] = len(cases)
     for i in range(n_cases):
         cases.append(make_case(rng, exact=(i % 2 == 0)))
+    # perturb-then-probe: the fixed corpus runs once more AFTER the varied batch (other classes, options, sampled functions,
+    # tolerances); the oracle is the property itself, so a verdict that depends on what ran before is a witness here too
+    cases += corpus()
     terms, metas = [], []
     dist = {}
     verd = {'credit': 0, 'no-credit': 0, 'band': 0}
@@ -965,7 +1183,8 @@ def run_graders(ctx, res, rng):
             if what:
                 res.witnesses.append({'key': case_key(case), 'kind': 'grader', 'case': case_json(case), 'what': what,
                                       'answer_text': obs['ans_text'], 'student_text': obs['stu_text'],
-                                      'handed_out': repr(obs['handed_out']), 'observed': repr(obs['result'])})
+                                      'handed_out': repr(obs['handed_out']), 'functions': case.get('funcs'),
+                                      'observed': repr(obs['result'])})
             if obs['status'] != 'ret' or obs['evals'] is None or obs['results'] is None:
                 res.disagreements.append({'kind': 'grader-call', 'what': 'call did not return / evaluations not captured: %s'
                                           % obs['error'], 'student': obs['stu_text'], 'answer': obs['ans_text']})
@@ -1032,6 +1251,8 @@ def case_from_json(d):
     c['samples'] = {k: [conv(x) for x in vs] for k, vs in d['samples'].items()}
     c['answer'] = tup(d['answer'])
     c['student'] = tup(d['student'])
+    c['funcs'] = {k: (dict(v, trees=[tup(t) for t in v['trees']]) if v.get('type') == 'tree' else v)
+                  for k, v in d.get('funcs', {}).items()}
     return c
 
 
@@ -1266,7 +1487,9 @@ def run(ctx):
     for k in STATS:
         STATS[k] = 0
     res.rule = ('grader calls: fixed boundary/norm/operand-order/counting corpus + random (grader kind, answer, student family '
-                'delta/scale/branch/rewrite, tolerance, samples, failable_evals, recorded sample values) cases, half exactly '
+                'delta/scale/branch/rewrite, tolerance, samples, failable_evals, recorded sample values AND recorded sampled functions: '
+                'answers over variables, over sampled functions only (own trees, RandomFunction, SpecificFunctions, bare lists), over both, '
+                'and constants) cases, the corpus re-probed after the varied batch, half exactly '
                 'representable (verdict demanded on the boundary itself) and half random reals (guard band 1e-9); non-trivial = '
                 'delta/scale family or a case where some but not all samples fail; direct calls of within_tolerance and '
                 'consolidate_results distinct by their arguments')
